@@ -547,7 +547,7 @@ def c12(res, tier, seed, replay):
     if replay:
         meta = json.load(open(os.path.join(replay, "violation.json")))["meta"]
         behs = [json.loads(l) for l in open(os.path.join(replay, meta["behaviours"]))]
-        runs = [("replay", behs, meta.get("backups", False))]
+        runs = [("backupfail" if meta.get("backupfail") else "replay", behs, meta.get("backups", False))]
     else:
         design_check(res, "ShardMgr", "ShardMgr.cfg")
         design_check(res, "ShardMgr", "ShardMgr.live.cfg")
@@ -559,7 +559,9 @@ def c12(res, tier, seed, replay):
         behs = vlib.tlc_simulate("ShardMgr", "ShardMgr.sim.cfg", n, 120, seed)
         res.coverage["behaviours_generated"] = len(behs)
         half = len(behs) // 2
-        runs = [("plain", behs[:half], False), ("backups", behs[half:], True), ("stress", [], False)]
+        runs = [("plain", behs[:half], False), ("backups", behs[half:], True), ("stress", [], False),
+                # the same behaviours with a backup copy that fails every time (file name beyond PATH_MAX)
+                ("backupfail", behs[half:half + (60 if tier == "quick" else 600)], True)]
     tot_drift = 0
     for name, bs, backups in runs:
         bf = os.path.join(vlib.subdir("traces"), f"mgr-{name}.behaviours")
@@ -572,6 +574,8 @@ def c12(res, tier, seed, replay):
             args += ["-behaviours", bf]
         if backups:
             args.append("-backups")
+        if name == "backupfail":
+            args.append("-backupfail")
         rc, so, se = vlib.run_vh(args, timeout=3000)
         if rc != 0:
             if CRASH_RE.search(se):
@@ -579,7 +583,7 @@ def c12(res, tier, seed, replay):
                 open(errf, "w").write(se)
                 first = next((ln for ln in se.splitlines() if CRASH_RE.search(ln)), "")
                 res.violation(f"shard manager replay crashed: {first[:200]}", files=[bf, errf],
-                              meta={"behaviours": os.path.basename(bf), "backups": backups})
+                              meta={"behaviours": os.path.basename(bf), "backups": backups, "backupfail": name == "backupfail"})
                 continue
             raise Inconclusive(f"mgr driver failed rc={rc}: {se[-1500:]}")
         stats = json.loads(so.strip().splitlines()[-1])
@@ -610,7 +614,7 @@ def c12(res, tier, seed, replay):
             dumps = [os.path.join(vlib.subdir("mgr-" + name), x) for x in os.listdir(vlib.subdir("mgr-" + name)) if x.endswith(".dump")][:1]
             res.violation(f"shard manager ({name}): no monitor action explains line {n}: {summarize_event(line)} "
                           f"in behaviour {beh['b'] if beh else '?'}: {' '.join(beh['steps']) if beh else ''}"[:1500],
-                          files=[bf, out] + dumps, meta={"behaviours": os.path.basename(bf), "backups": backups, "line": n})
+                          files=[bf, out] + dumps, meta={"behaviours": os.path.basename(bf), "backups": backups, "backupfail": name == "backupfail", "line": n})
         else:
             sample_from_trace(res, out, ("NewBehaviour",), cap=1)
             results = [{"run": {"name": "mgr-" + name}, "trace": out, "tv": tv}]
